@@ -621,14 +621,16 @@ PROPS["C10"] = {
                   "(unitNormalAt_eq: the curve's own unit normals at m - t_m*eps and m + t_m'*eps) - so the chain of offset_scaling is connected only up to that difference (observed: 0 or <= 1e-12 in 99% of the chains, <= 1e-9 in the rest), not exactly, even in exact arithmetic; "
                   "leaf_ends / offset_by_moving_tangents / offset_by_scaling_homothety / offset_by_scaling_start_tangent - both leaf constructors start/end exactly on the offset points; moving keeps the end tangents exactly; scaling is "
                   "an exact similarity about the focus (all tangents parallel) iff both ends ask for the same scale, otherwise the end tangent deviates by (s1-s0)/3 * (cp1-start) x (start-F); "
-                  "zero_length_section_pieces - for a zero-length section subdivide_offset returns curves that start and end ON THE SOURCE CURVE (no normal exists): the defect behind the known finding duplicate_extremity. "
+                  "split_params_spec / windows_have_positive_length / offset_scaling_leaf_sections / offset_scaling_leaf_normals - the repair (dedup_by(|a,b| |a-b| < 0.01) after the sort of the extremity list): the split parameters still start at 0 and end at 1, "
+                  "every window is at least 0.01 long, every leaf section of offset_scaling has positive length inside [0,1], and every returned curve starts/ends at C(t) + o(t)*n(t -/+ t_m*eps) with the library's unit normal n of the ORIGINAL curve; "
+                  "zero_length_unit_normal / zero_length_section_pieces - what a zero-length section would give (curves that start and end ON THE SOURCE CURVE): the defect that the repair removes. "
                   "Every translated piece is mirrored at Float and compared BIT FOR BIT with tangent_at_pos, normal_at_pos, to_unit_vector, characterize_curve, features_for_curve, the sample parameters of offset_lms_sampling "
                   "(observed through the offset closure), the first/last point of offset / offset_lms_sampling chains and every control point of every curve offset_scaling returns. "
                   "NOT proved (numerical, search only): the 1.5-unit two-sided distance between chain and parallel curve (least-squares fit / scaling heuristics), and the size of the joint gaps of offset_scaling.",
     "level_note": "find_self_intersection_point (loop position) is an input of the model taken from the implementation, not translated. fit_curve_cubic is represented by C08's contract / recursion skeleton. "
                   "The sample points of offset_lms_sampling other than the first and last, and the intermediate sections of subdivide_offset, are not observable through the public API (their effect is: the returned control points are compared). "
-                  "The search found two defect classes of offset_scaling inside the property's preconditions (known_findings.json): zero-length sub-sections from duplicate extremities, and single scaled arches more than 1.5 units off for curves "
-                  "that turn by more than 90 degrees. " + COMMON_NOTE,
+                  "The search found two defect classes of offset_scaling inside the property's preconditions: zero-length sub-sections from duplicate extremities (repaired in flo_curves 45c6336; the search class duplicate_extremity no longer fails), "
+                  "and single scaled arches more than 1.5 units off for curves that turn by more than 90 degrees (known_findings.json). " + COMMON_NOTE,
     "rule": "corr: curves of every search class, every degenerate class of cshapes (points, coincident control points, cusps, loops, lines) and small integer / dyadic grids (exact ties of the classification); operations normal "
             "(t = 0, 1, eps, 1-eps, -0, interior, outside), features (with characterize_curve), lms (subdivisions 0,1,2,3,5,8,32,33; constant, integer, variable, zero, sign-changing offsets; optional tangent offset), offset, scaling; "
             "comparison is bit equality of every number (NaN = NaN). search: curves in a 100-unit box (arch, S-curve, two inflections, near-line, line, gentle/any random, duplicate_extremity = 5-unit grid curves whose "
